@@ -54,6 +54,14 @@ enum Fault {
     Error,       // the I/O call returns Err(Other)
     Eof,         // read returns Ok(0) (premature EOF) / seek fails
     Interrupted, // read returns Err(Interrupted) once, then proceeds (legal behaviour, must be transparent)
+    PartialTimedOut,   // the read delivers at most 3 bytes (legal short read), the NEXT read returns Err(TimedOut) once
+    PartialWouldBlock, // same with Err(WouldBlock): the reader has consumed bytes when the error surfaces
+}
+impl Fault {
+    /// a fault after which the call that hit it may (must, unless it re-seeks and re-reads correctly) return Err
+    fn hard(self) -> bool {
+        matches!(self, Fault::Error | Fault::Eof | Fault::PartialTimedOut | Fault::PartialWouldBlock)
+    }
 }
 
 /// Scripted reader: serves `data`; `short` makes every read deliver at most 1 byte (legal); a fault at I/O call index `at`.
@@ -65,28 +73,41 @@ struct ScriptReader<'a> {
     fault: Fault,
     short: bool,
     fired: bool,
+    stage: u8,
     bytes_read: usize,
 }
 impl<'a> ScriptReader<'a> {
     fn new(data: &'a [u8], at: usize, fault: Fault, short: bool) -> Self {
-        ScriptReader { data, pos: 0, ops: 0, at, fault, short, fired: false, bytes_read: 0 }
+        ScriptReader { data, pos: 0, ops: 0, at, fault, short, fired: false, stage: 0, bytes_read: 0 }
     }
 }
 impl Read for ScriptReader<'_> {
     fn read(&mut self, buf: &mut [u8]) -> std::io::Result<usize> {
         let idx = self.ops;
         self.ops += 1;
-        if idx == self.at && !self.fired {
+        let partial = matches!(self.fault, Fault::PartialTimedOut | Fault::PartialWouldBlock);
+        if partial && self.stage == 1 {
+            self.stage = 2;
+            self.fired = true;
+            let kind = if self.fault == Fault::PartialTimedOut { std::io::ErrorKind::TimedOut } else { std::io::ErrorKind::WouldBlock };
+            return Err(std::io::Error::new(kind, "injected transient error after a partial read"));
+        }
+        let mut cap = usize::MAX;
+        if partial && idx == self.at && self.stage == 0 && buf.len() > 3 {
+            self.stage = 1;
+            cap = 3;
+        }
+        if idx == self.at && !self.fired && !partial {
             self.fired = true;
             match self.fault {
                 Fault::Error => return Err(std::io::Error::new(std::io::ErrorKind::Other, "injected read error")),
                 Fault::Eof => return Ok(0),
                 Fault::Interrupted => return Err(std::io::Error::new(std::io::ErrorKind::Interrupted, "injected EINTR")),
-                Fault::None => {}
+                _ => {}
             }
         }
         let avail = if self.pos >= self.data.len() as u64 { 0 } else { self.data.len() - self.pos as usize };
-        let mut n = buf.len().min(avail);
+        let mut n = buf.len().min(avail).min(cap);
         if self.short {
             n = n.min(1);
         }
@@ -171,7 +192,7 @@ fn scenario_a(len: usize, seq: &[(u64, u64)], at: usize, fault: Fault, short: bo
         (Err(_), Err(_)) => return Ok(0),
         (Err(e), Ok(_)) => {
             // open may fail only because of the injected hard fault
-            if fault == Fault::Error || fault == Fault::Eof {
+            if fault.hard() {
                 return Ok(0);
             }
             fail!("C07 open_stream failed ({e}) where minimal_parse succeeds, no hard fault injected");
@@ -199,17 +220,17 @@ fn scenario_a(len: usize, seq: &[(u64, u64)], at: usize, fault: Fault, short: bo
         match (&got, &expect) {
             (Ok((g, _)), Ok((e, _))) => {
                 if g.as_slice() != *e {
-                    if fault == Fault::Error || fault == Fault::Eof {
+                    if fault.hard() {
                         fail!("C17 section_data({off},{size}) at query {qi}: under an injected {fault:?} the stream returned Ok with fabricated/different bytes (len {} vs {})", g.len(), e.len());
                     }
                     fail!("C07 section_data({off},{size}) at query {qi}: stream returned different bytes than the slice parser (len {} vs {})", g.len(), e.len());
                 }
             }
             (Err(_), Err(_)) => {}
-            (Ok(_), Err(e)) => fail!("{} section_data({off},{size}) at query {qi}: stream Ok where the slice parser fails ({e})", if fault == Fault::Error || fault == Fault::Eof { "C17" } else { "C07" }),
+            (Ok(_), Err(e)) => fail!("{} section_data({off},{size}) at query {qi}: stream Ok where the slice parser fails ({e})", if fault.hard() { "C17" } else { "C07" }),
             (Err(e), Ok(_)) => {
                 // acceptable only if a hard fault fired during this life of the stream and it is this query that hit it
-                let hard = fault == Fault::Error || fault == Fault::Eof;
+                let hard = fault.hard();
                 if !hard {
                     fail!("C07 section_data({off},{size}) at query {qi}: stream Err ({e}) where the slice parser succeeds (reader is fault-free/legal)");
                 }
@@ -319,7 +340,7 @@ fn run_family_a(hints: &[(String, u64)]) -> Result<usize, Failure> {
             note(scenario_a(len, seq, usize::MAX, Fault::None, true).map_err(|f| Failure(format!("{} [len={len} seq={seq:?} short reads]", f.0))));
             for at in 0..14 {
                 note(scenario_a(len, seq, at, Fault::Interrupted, false).map_err(|f| Failure(format!("{} [len={len} seq={seq:?} EINTR@{at}]", f.0))));
-                for fault in [Fault::Error, Fault::Eof] {
+                for fault in [Fault::Error, Fault::Eof, Fault::PartialTimedOut, Fault::PartialWouldBlock] {
                     note(scenario_a(len, seq, at, fault, false).map_err(|f| Failure(format!("{} [len={len} seq={seq:?} {fault:?}@{at}]", f.0))));
                     note(scenario_a_residue(len, seq, at, fault).map_err(|f| Failure(format!("{} [len={len} seq={seq:?}]", f.0))));
                     n += 2;
@@ -340,7 +361,7 @@ fn compare_file(name: &str, file: &[u8], at: usize, fault: Fault, short: bool) -
         Ok(o) => o,
         Err(_) => fail!("C08 open_stream panicked on {name}"),
     };
-    let hard = fault == Fault::Error || fault == Fault::Eof;
+    let hard = fault.hard();
     if let Ok(b) = &bytes {
         // laziness of open: no more than the file header, shdr[0] (twice at most) and the two tables
         let sh = b.section_headers().map(|t| t.len()).unwrap_or(0) * 64;
@@ -651,6 +672,24 @@ fn run_family_c() -> usize {
         for xnum in [false, true] {
             let f = synthetic_tables_first(pad, xnum);
             note(compare_file(&format!("synthetic object with the section header table first, {pad} bytes of padding behind it, extended numbering={xnum}"), &f, usize::MAX, Fault::None, false));
+            n += 1;
+        }
+    }
+    // overlapping symbol table / string table ranges whose sizes add up to more than the stream (each range is in bounds):
+    // accessors that load several ranges before borrowing them must still find every one of them in the cache
+    for symtype in [2u32, 11] {
+        for (sym, strs) in [((0usize, 240usize), (100usize, 200usize)), ((64, 240), (0, 304)), ((0, 312), (0, 312))] {
+            let mut f = synthetic_gap_file(0, symtype);
+            let shoff = u64::from_le_bytes(f[40..48].try_into().unwrap()) as usize;
+            for (k, (o, sz)) in [(1usize, sym), (2usize, strs)] {
+                f[shoff + 64 * k + 24..shoff + 64 * k + 32].copy_from_slice(&(o as u64).to_le_bytes());
+                f[shoff + 64 * k + 32..shoff + 64 * k + 40].copy_from_slice(&(sz as u64).to_le_bytes());
+            }
+            let label = format!("synthetic object with overlapping symbol table {sym:?} and string table {strs:?} (offset, size) in a {}-byte stream (type {symtype})", f.len());
+            match catch_unwind(AssertUnwindSafe(|| compare_file(&label, &f, usize::MAX, Fault::None, false))) {
+                Ok(r) => note(r),
+                Err(_) => note::<()>(Err(Failure(format!("C08 {label}: a stream query panicked")))),
+            }
             n += 1;
         }
     }
